@@ -7,6 +7,30 @@ import (
 )
 
 func init() {
+	// ulid.Parse / ParseStrict are `func Parse(s string) (id ULID, err error) { return id, parse([]byte(s), false, &id) }`.
+	// go/ssa reads the named result `id` BEFORE the call in the same return statement (order unspecified by
+	// the language), the gc compiler returns the value AFTER it (what every user of the library relies on).
+	// Modelled as what the binary does: run the real `parse` on a fresh ULID and return it afterwards.
+	ulidParse := func(strict bool) Intrinsic {
+		return func(in *Interp, fn *ssa.Function, a []Value, g *Term) Value {
+			pf := fn.Pkg.Func("parse")
+			if pf == nil {
+				abortf("ulid.parse not found")
+			}
+			in.stubLog["model:ulid.Parse returns the id after parse() filled it (gc evaluation order)"]++
+			idv := in.zero(fn.Signature.Results().At(0).Type())
+			p := Ptr{&idv}
+			st := in.ts.False
+			if strict {
+				st = in.ts.True
+			}
+			err := in.callFunction(pf, []Value{in.strToBytes(str(a[0])), st, p}, nil, g)
+			return Tuple{copyVal(*p.p), err}
+		}
+	}
+	reg("github.com/oklog/ulid/v2.Parse", ulidParse(false))
+	reg("github.com/oklog/ulid/v2.ParseStrict", ulidParse(true))
+
 	// (*structpb.Struct).String is prototext via reflection (not encodable). The memory backend only
 	// compares two such strings for equality (sanitizeTuplesWriteDelete). Modelled for the two values
 	// the harnesses use, with the results the real library gives (checked natively):
